@@ -472,6 +472,59 @@ func init() {
 // set to {L-1, L, L+1}, while another entry is optionally added (at L-1 / L / L+1) and a third one
 // optionally removed — so that additions and removals in ONE event (map size unchanged) are covered.
 
+// c08EnumLevelTypes: a creator-level sender re-sends the current power levels with ONE level given in a
+// spelling that is not a plain integer. Whether such an event may be accepted depends on the room
+// version only (strict integers from version 10); everything else about the event is permitted.
+func c08EnumLevelTypes(size, shard, nshards int, emit func(c07Case)) {
+	odd := []jv{{K: 'n'}, jstr("50"), jstr(" 50 "), jstr(""), jstr("abc"), {K: '#', S: "50.0"}, {K: '#', S: "5e1"}, {K: '#', S: "50.5"}, {K: '#', S: "-0"},
+		{K: 't'}, {K: 'f'}, {K: 'a'}, {K: 'o'}, {K: '#', S: "9007199254740992"}, {K: '#', S: "1e400"}}
+	type pos struct{ mapKey, key string }
+	var places []pos
+	for _, n := range raNamed {
+		places = append(places, pos{"", n})
+	}
+	places = append(places, pos{"users", c07Bob}, pos{"users", "@new:n.example"}, pos{"events", "m.room.topic"}, pos{"events", "org.example.new"},
+		pos{"notifications", "room"}, pos{"notifications", "other"})
+	idx := 0
+	for _, version := range vfVersions {
+		for _, hasOld := range []bool{true, false} {
+			for _, pl := range places {
+				for _, v := range odd {
+					idx++
+					if idx%nshards != shard {
+						continue
+					}
+					sender := c07Creator
+					users := map[string]int64{c07Bob: 50}
+					if !vtraits[version].Creators {
+						users[c07Creator] = 100
+					}
+					r := c07Room{Version: version, HasPL: hasOld, JoinRule: "public", Members: map[string]string{c07Creator: "join", c07Bob: "join"}}
+					cur := c07PLContent(users, map[string]int64{"users_default": 0, "events_default": 0, "state_default": 50, "ban": 50, "kick": 50, "redact": 50, "invite": 0},
+						map[string]int64{"m.room.topic": 50}, map[string]int64{"room": 50})
+					r.PL = cur
+					nc := cur
+					if pl.mapKey == "" {
+						nc = nc.with(pl.key, v)
+					} else {
+						m, _ := nc.get(pl.mapKey)
+						if m.K != 'o' {
+							m = jv{K: 'o'}
+						}
+						nc = nc.with(pl.mapKey, m.with(pl.key, v))
+					}
+					b := c07Build(r)
+					e := raEv{Type: "m.room.power_levels", Sender: sender, StateKey: raSK(""), Content: nc, Prev: []string{"$p:a.example"}}
+					if vtraits[version].Format == 2 {
+						e.Prev = []string{"$" + strings.Repeat("P", 43)}
+					}
+					emit(c07Finish(version, b, e))
+				}
+			}
+		}
+	}
+}
+
 func c08EnumEdits(size, shard, nshards int, emit func(c07Case)) {
 	idx := 0
 	type entryOp struct {
@@ -592,6 +645,8 @@ func c08EditCase(version string, L int64, which string, oldOff, newOff, added, r
 
 func init() {
 	rule := "bounded-exhaustive product: 16 versions x sender level {50,100} x {users, events, notifications, named levels} x (existing entry at L-1/L/L+1/absent -> absent/L-1/L/L+1) x another entry added (none/L-1/L/L+1) x a third entry removed (none/L-1/L) x own entry kept/removed/lowered/raised; size = sampling stride (1 = complete); non-trivial as for C08/pairs"
+	vfEnum("C08/level-types", rule+" Here: one level of an otherwise unchanged, permitted power-levels event (each named level, a users / events / notifications entry) is replaced by each non-integer spelling (null, numeric string, padded string, float with zero fraction, exponent, fraction, boolean, array, object, huge integer), in every room version.", 1, 1, 4, c08EnumLevelTypes, c08Check)
+	vfEnum("C07/power-level-types", rule+" (the same cases judged against R-auth in both directions)", 1, 1, 4, c08EnumLevelTypes, c07Check)
 	vfEnum("C08/edit-product", rule, 6, 1, 8, c08EnumEdits, c08Check)
 	vfEnum("C07/power-level-edit-product", rule+" (judged against R-auth in both directions)", 6, 1, 8, c08EnumEdits, c07Check)
 }
